@@ -71,19 +71,14 @@ def op_term(op):
     return 'AddSeg ' + ' '.join(zl(x) for x in op[1:5])
 
 
-def fx_code(fx):
-    return (1 if fx['fx_parity'] else 0) | (2 if fx['fx_words'] else 0) | (4 if fx['fx_ranges'] else 0) | \
-        (8 if fx['fx_table'] else 0)
-
-
-def coq_case06(fx, c, o):
+def coq_case06(c, o):
     rd = o['read']
     img = rd['cls'] == 0
     lz = 'None'
     if o.get('lz'):
         lz = f'(Some ({blist(bytes.fromhex(o["lz"][0]))}, {blist(bytes.fromhex(o["lz"][1]))}))'
     opres = '[' + ';'.join(f'({a},{zl(b)})' for a, b in o['opres']) + ']'
-    return (f'mk06 {fx_code(fx)} {zl(c["w"])} {zl(c["ver"])} {zl(c["flags"])} {zl(c["preset"])} '
+    return (f'mk06 {zl(c["w"])} {zl(c["ver"])} {zl(c["flags"])} {zl(c["preset"])} '
             f'[{"; ".join(op_term(op) for op in c["ops"])}] {"true" if o["ctor"] else "false"} {opres} {o["write"]} '
             f'{blist(bytes.fromhex(o["file"]))} {lz} {rd["cls"]} '
             f'{fw.npairs(rd["segs"]) if img else "[]"} {memlit(rd["mem"]) if img else "[]"} '
@@ -380,6 +375,89 @@ def judge(c, o):
     return {'kind': 'roundtrip-differs', 'sub': diff, 'ver': c['ver']}, f'representable input, but {what}'
 
 
+# ---- assembled programs in all four versions ---------------------------------------------------------
+def gen_program(rng, w):
+    """a small stl-free program: ops with label/number operands, wflips, pads, extra segments, reserves"""
+    dw = 2 * w
+    space_ops = (1 << w) // dw                     # number of op slots in the address space
+    nlab = rng.randrange(2, 7)
+    labs = [f'L{i}' for i in range(nlab)]
+    lines = ['  ;' + rng.choice(labs)]
+    budget = min(12, max(2, space_ops // 4))
+    for lab in labs:
+        lines.append(f'{lab}:')
+        for _ in range(rng.randrange(1, 3)):
+            if budget <= 0:
+                break
+            budget -= 1
+            r = rng.random()
+            a = rng.choice(labs + [str(rng.randrange(0, min(1 << w, 1 << 12)))])
+            b = rng.choice(labs)
+            if r < 0.55:
+                lines.append(f'  {a}+{rng.randrange(0, w)};{b}')
+            elif r < 0.75 and w >= 16:
+                lines.append(f'  wflip {rng.choice(labs)}+{w}, {rng.randrange(0, min(1 << w, 1 << 10))}, {b}')
+            elif r < 0.85:
+                lines.append(f'  pad {rng.choice((1, 2, 4))}')
+            else:
+                lines.append(f'  ;{b}')
+    if w >= 16 and rng.random() < 0.7:
+        base = rng.choice((64, 256, 1 << (w - 8))) if w > 16 else rng.choice((64, 128))
+        lines.append(f'  segment {base * dw}')
+        lines.append(f'X0:\n  ;X0')
+        if rng.random() < 0.7:
+            lines.append(f'  reserve {rng.choice((1, 3, 499, 500, 501, 2000)) * dw}')
+    return '\n'.join(lines) + '\n'
+
+
+def asm_campaign(ctx):
+    """the assembler's output in versions 0..3 must load as the same image; the model reads the files alike"""
+    rng = ctx.rng
+    cases = []
+    for _ in range(ctx.n(30, 400)):
+        w = rng.choice((8, 16, 16, 32, 64))
+        cases.append({'w': w, 'src': gen_program(rng, w), 'stl': False})
+    for rel in ('programs/print_tests/hello_world.fj', 'programs/print_tests/hello_no-stl.fj')[:ctx.n(2, 2)]:
+        pth = fw.REPO / rel
+        if pth.exists():
+            cases.append({'w': 64, 'src': '', 'path': str(pth), 'stl': 'no-stl' not in rel})
+    n = len(cases)
+    batch = max(1, (n + fw.NCPU - 1) // fw.NCPU)
+    outs = fw.run_workers_parallel(ctx, 'fjm', [{'mode': 'asm', 'cases': cases[i:i + batch]} for i in range(0, n, batch)])
+    outs = [o for out in outs for o in out]
+    from . import c10
+    terms, owners = [], []
+    for c, vs in zip(cases, outs):
+        errs = [v.get('asm_error') for v in vs]
+        ctx.hist('assembled_programs', 'refused' if all(errs) else 'assembled')
+        if any(errs):
+            if not all(errs) or any(e.startswith('RAW') for e in errs if e):
+                ctx.violation({'kind': 'assembly-differs-by-version'}, f'C06: assembling the same source gives {errs} in versions 0..3',
+                              {'case': c, 'observed': errs, 'required': 'the same outcome in every version'})
+            continue
+        imgs = [(v['read'].get('segs'), v['read'].get('mem'), v['read'].get('zeros'), v['read']['cls']) for v in vs]
+        ctx.count(json.dumps([c['w'], c['src'], c.get('path')]), imgs[0][3] == 0 and len(imgs[0][0]) >= 1)
+        if any(i != imgs[0] for i in imgs) or imgs[0][3] != 0:
+            ctx.violation({'kind': 'assembled-image-differs-by-version'},
+                          f'C06: the same source (w={c["w"]}) loads as different images in versions 0..3 '
+                          f'(reader classes {[i[3] for i in imgs]})',
+                          {'case': c, 'observed': [{k: v[k] for k in v if k not in ("file", "lz")} for v in vs],
+                           'required': 'the loaded image does not depend on the version'})
+        for ver, v in enumerate(vs):
+            big = len(v['file']) > 40000 and ver != 3
+            if big:
+                continue        # the stl programs are compared across versions above; only v3 (small) goes through Coq
+            x = {'expr': blist(bytes.fromhex(v['file'])), 'kind': 'assembled'}
+            terms.append(c10.coq_case10(x, v))
+            owners.append((c, ver, v))
+    codes = eval_codes(ctx, 'c06asm', HEADER, terms, 'code10', shard=max(10, len(terms) // (fw.NCPU * 2) + 1))
+    for code, (c, ver, v) in zip(codes, owners):
+        if code is not None and not code & 1:
+            ctx.broken_tie('C06 correspondence on assembled files (Model/Fjm.v read vs Reader)',
+                           json.dumps({'case': c, 'version': ver, 'observed': {k: v[k] for k in v if k not in ('file', 'lz')}})[:4000])
+    ctx.coverage['assembled_files_through_model'] = len(terms)
+
+
 # ---- campaign --------------------------------------------------------------------------------------
 def run_cases(ctx, cases):
     n = len(cases)
@@ -400,19 +478,29 @@ def tie_constants(ctx, pr):
     return ok
 
 
+WITNESS_SIG = {'F3_odd_data_length': {'kind': 'writer-accepts-odd-data-length'},
+               'F4_word_out_of_range': {'kind': 'writer-accepts-word-out-of-range'},
+               'F5_range_or_field': {'kind': 'writer-accepts-data-range-beyond-pool'},
+               'F6_inconsistent_table': {'kind': 'reader-accepts-inconsistent-table'}}
+
+
 def probe_tree(ctx):
+    """constants of the tree under test + the four fixed-defect witnesses (F3-F6): each must be refused"""
     pr = fw.run_worker(ctx, 'fjm', {'mode': 'probe'})
-    fx = {k: pr[k] for k in ('fx_parity', 'fx_words', 'fx_ranges', 'fx_table')}
-    ctx.coverage['validation_flags_probed'] = fx
-    ctx.coverage['validation_probe_detail'] = pr['partial']
-    return pr, fx
+    ctx.coverage['fixed_defect_witnesses_refused'] = pr['witnesses']
+    for name, ok in pr['witnesses'].items():
+        if not ok:
+            ctx.violation(dict(WITNESS_SIG[name], witness=True),
+                          f'{ctx.prop}: the witness of the fixed defect {name} is accepted again (see workers/fjm.py probe())',
+                          {'witness': name, 'detail': pr['partial'], 'how': f'./check {ctx.prop}'})
+    return pr
 
 
 def run(ctx):
     fw.static_proofs(ctx, ['Properties/C06.v'])
-    pr, fx = probe_tree(ctx)
+    pr = probe_tree(ctx)
     tie_constants(ctx, pr)
-    cases = [gen_case(ctx.rng) for _ in range(ctx.n(3000, 60000))]
+    cases = [gen_case(ctx.rng) for _ in range(ctx.n(1500, 30000))]
     obs = run_cases(ctx, cases)
     terms = []
     for c, o in zip(cases, obs):
@@ -438,21 +526,23 @@ def run(ctx):
                            'a call sequence is either refused with FlipJumpWriteFjmException or written to a file that '
                            'the Reader loads as exactly the declared image',
                            'how': './check C06 --replay <this file>'})
-        terms.append(coq_case06(fx, c, o))
+        terms.append(coq_case06(c, o))
     for c, o in list(zip(cases, obs))[:4]:
         ctx.sample({'case': {k: c[k] for k in ('w', 'ver', 'flags', 'preset', 'ops')},
                     'observed': {'opres': o['opres'], 'write': o['write'], 'read_class': o['read']['cls'],
                                  'segs': o['read'].get('segs'), 'zeros': o['read'].get('zeros')}})
-    compare(ctx, 'c06', cases, obs, terms, fx)
+    compare(ctx, 'c06', cases, obs, terms)
+    asm_campaign(ctx)
     ctx.coverage['rule'] = ('random Writer call sequences (interleaved or pool-first with shared/odd-offset data ranges, data '
                             'shorter than the segment, zero tails 996..1004 and lazy, starts near 2^14 multiples and at '
                             '2^40..2^64, re-basing wrap-around, refused calls, unrepresentable calls) x w in {8,16,32,64} x '
-                            'versions 0..3 x lzma presets 0..9; distinct = distinct (w, version, flags, calls); '
+                            'versions 0..3 x lzma presets 0..9; plus generated stl-free programs and two repository programs assembled '
+                            'by the real assembler in versions 0..3 (images compared across versions, files read by the model); '
+                            'distinct = distinct (w, version, flags, calls) or (w, source); '
                             'non-trivial = written, read back as an image with >= 1 segment')
     ctx.assumptions += ['liblzma is an oracle: the model is given the real codec\'s answers (compress on the packed pool, '
                         'decompress on the payload); theorems assume decompress(compress x) = x',
-                        'the model carries one flag per proposed validation (F3-F6); the flags are set from the four '
-                        'probe witnesses run on the tree under test and recorded in coverage.validation_flags_probed']
+                        'Z.of_nat(len(pool)), len(segments) < 2^64 (fits_u64) is a hypothesis of the theorems']
 
 
 def eval_codes(ctx, name, header, terms, expr, shard):
@@ -486,7 +576,7 @@ def eval_codes(ctx, name, header, terms, expr, shard):
     return res
 
 
-def compare(ctx, name, cases, obs, terms, fx):
+def compare(ctx, name, cases, obs, terms):
     codes = eval_codes(ctx, name, HEADER, terms, 'code06', shard=max(40, len(terms) // (fw.NCPU * 3) + 1))
     oks = [None if x is None else bool(x & 1) for x in codes]
     specs = [None if x is None else bool(x & 2) for x in codes]
@@ -499,7 +589,7 @@ def compare(ctx, name, cases, obs, terms, fx):
             continue
         # model and implementation differ: triage with the spec
         rc, model = fw.coq_eval_term(ctx, f'{name}_diag{k}', HEADER,
-                                     f'let c := {terms[k]} in (exec (fx_of (k_fx c)) (mkcfg (k_w c) (k_ver c) (k_flags c) (k_preset c)) '
+                                     f'let c := {terms[k]} in (exec (mkcfg (k_w c) (k_ver c) (k_flags c) (k_preset c)) '
                                      f'(k_ops c) ws_empty)')
         if pj is not None:
             continue      # already reported as a violation of the spec with its own signature
